@@ -527,7 +527,17 @@ class IntervalInterp:
                 if inner.lo >= 0 and not math.isinf(inner.hi):
                     return AV(len(str(int(max(inner.lo, 0)))), len(str(int(inner.hi))), "scalar")
             return v.size if v.size is not None else AV(0, INF, "scalar")
-        if last in ("astype", "copy", "ravel", "flatten"):
+        if last == "astype" and base is not None:
+            v = self.ev(base, env)
+            tname = ast.unparse(args[0]) if args else ""
+            if any(k in tname for k in ("float", "complex", "double")):
+                return v
+            if tname.split(".")[-1] in ("str", "str_", "object"):
+                return v
+            # an integer target - or one not known here (x.astype(y.dtype)) - truncates toward zero: 0.3 becomes 0
+            tr = lambda z: z if math.isinf(z) else float(math.trunc(z))
+            return v.copy(lo=min(tr(v.lo), v.lo), hi=max(tr(v.hi), v.hi)) if not any(k in tname for k in ("int", "bool")) else v.copy(lo=tr(v.lo), hi=tr(v.hi))
+        if last in ("copy", "ravel", "flatten"):
             return self.ev(base, env) if base is not None else AV()
         if last in ("str2array",):
             return AV(0, 1, "array")
